@@ -3,6 +3,7 @@ import DrummerVerif.Lemmas.C11S
 import DrummerVerif.Lemmas.KStep
 import DrummerVerif.Bridge.Bridge
 import DrummerVerif.Lemmas.Quiet
+import DrummerVerif.Lemmas.Cadence
 /-!
 # C11 — only stray replicas are killed, and kill requests stop once they are gone
 
@@ -158,6 +159,20 @@ theorem healed_fleet_stays_healed :
     ∀ (l l' : Loop), Loop.Settled l → Loop.AllRunning l → QuietSteps l l' →
       Loop.Settled l' ∧ Loop.AllRunning l' ∧ SameFleet l l' :=
   @_root_.Drummer.healed_fleet_stays_healed
+
+/-- **the quiet window** - the timing premise discharged for bounded windows: `DB.Fresh d s` says every member record
+carries a positive report time at most `s` old; `WindowStep` is a fault-free event (tick, report, execution, catch-up,
+scheduling round with NO premise) indexed by the number of ticks it contains. From a settled state that is `Fresh s`, any
+sequence of such events containing `k` ticks with `s + k * tickInterval ≤ nodeHostTTL` is a quiet run: every round finds
+every member healthy and issues nothing, the fleet stays settled. (Reports renew the window: a report stamps the members
+its NodeHost runs with the current time, `running_member_is_recorded_as_reported_now`.) -/
+theorem quiet_window :
+    ∀ (l l' : Loop) (k s : Nat), Loop.Settled l → 0 < l.db.tick → DB.Fresh l.db s →
+      s + k * tickInterval ≤ nodeHostTTL → l.db.tick + k * tickInterval < 18446744073709551616 →
+        WindowSteps l l' k →
+          QuietSteps l l' ∧ Loop.Settled l' ∧ DB.Fresh l'.db (s + k * tickInterval) ∧ 0 < l'.db.tick ∧
+            l'.db.tick ≤ l.db.tick + k * tickInterval :=
+  @_root_.Drummer.quiet_window
 
 end C11
 end Drummer
